@@ -1,5 +1,6 @@
 import SSV.Model.RelayLifeCfg
 import SSV.Proofs.RelayLifeThms
+import SSV.Proofs.RelayLifeEvict
 /-
 C12 — UDP sessions end cleanly: idle eviction, restart after eviction, prompt shutdown (PARTIAL: all
 interleavings of the MODEL; the real scheduler/timers are sampled by corr_c12).
@@ -8,10 +9,10 @@ The model (SSV/Model/RelayLife.lean) is instantiated with the configurations tha
 from service/udp_nat.go, udp_nat_mmsg.go, udp_session.go, udp_session_mmsg.go denote (`cfgOf`).  A program shape
 the model does not mirror, or a missing re-check in an uplink, makes this file fail to elaborate.
 
-Full statement of the shutdown part ("after Stop every goroutine reaches its end in every fair run, without waiting
-for the NAT timer") is proved as its safety parts: `stop_needs_no_timer` (no state after Stop's pass has a downlink
-sleeping on a future deadline unless its uplink is about to force it) and `all_threads_exit_partial` (when
-`wg.Wait` returns everything has returned).  Not proved: global deadlock-freedom / termination under fairness.
+The shutdown part is proved for all runs of the model (`all_threads_exit`: deadlock freedom after Stop without timer or
+environment, a ranking function decreasing on every relay step, every maximal run ends with Stop returned within the bound);
+eviction is proved for all runs as monotone, always-enabled, strictly decreasing tear-down (`eviction_restarts`), with the
+scheduler's weak fairness as the only assumption for "it completes".
 -/
 namespace SSV.C12
 open SSV.RelayLife SSV.Gen
@@ -120,13 +121,78 @@ theorem eviction_of_unpackable_session :
         [.timer 0, .dTimeout 0, .cleanup 0, .cleanup 0, .cleanup 0, .cleanup 0, .uStep 0, .uStep 0])).map fun s =>
       ((s.table 0).isNone && (s.ent 0).finished && !(s.ent 0).sock && s.mu == .free && !s.panic)) = some true := by decide
 
-/-- Shutdown, safety parts: Stop passes `mwg.Wait` only after the receive loop returned (no new sessions afterwards),
-and once `wg.Wait` has returned every session goroutine (initialiser/downlink/clean-up and uplink) has returned.
-PARTIAL: that every fair run reaches this point is not proved (see header). -/
-theorem all_threads_exit_partial {c : Cfg} (_ : fileCfg c) {s : State} (h : Reachable c s) :
+/-- Shutdown, for ALL runs of the model ("stop returns promptly, bounded by in-flight work, not by the NAT timeout").
+In every reachable state of every file's model:
+(a) deadlock freedom after Stop was called: unless Stop has returned, some goroutine of the relay can make a step —
+    `Ev.internal`: no NAT timer, no client datagram, no datagram from the target (sessions in initialisation, downlinks,
+    uplinks, clean-ups, the receive loop and Stop itself are all covered);
+(b) ranking: every step of a goroutine of the relay strictly decreases `measure` (program positions + 7 x queued packets),
+    so a run of such steps is no longer than `measure s`: a bound in terms of in-flight work in which the NAT timeout does
+    not occur;
+(c) hence every run of relay steps after Stop that cannot be continued has Stop returned within `measure s` steps, and
+    such a run exists;
+(d) Stop passes `mwg.Wait` only after the receive loop returned, and once `wg.Wait` has returned every session goroutine
+    has returned.
+Assumption of the model: a blocking initialiser call returns (step `init`), i.e. in-flight work is finite. -/
+theorem all_threads_exit {c : Cfg} (hc : fileCfg c) {s : State} (h : Reachable c s) :
+    (s.spc ≠ .idle → s.spc ≠ .done → ∃ e, e.internal = true ∧ (step c s e).isSome = true) ∧
+    (∀ e s', e.internal = true → step c s e = some s' → measure s' < measure s) ∧
+    (∀ es s', (∀ e ∈ es, e.internal = true) → run c s es = some s' → es.length + measure s' ≤ measure s) ∧
+    (s.spc ≠ .idle → ∀ es s', (∀ e ∈ es, e.internal = true) → run c s es = some s' →
+        (∀ e, e.internal = true → step c s' e = none) → s'.spc = .done ∧ es.length ≤ measure s) ∧
+    (s.spc ≠ .idle → ∃ es s', (∀ e ∈ es, e.internal = true) ∧ es.length ≤ measure s ∧ run c s es = some s' ∧ s'.spc = .done) ∧
     (s.spc.afterMwg = true → s.rpc = .done) ∧
     (s.spc.afterWg = true → ∀ i, i < s.n → (s.ent i).finished = true) :=
-  ⟨recv_loop_done_after_mwg c h, fun hs _ hi => all_returned_after_wait c h hs hi⟩
+  ⟨stop_progress c (fileCfg_recheck hc) (fileCfg_initArms hc) h,
+   fun e _ he hs => measure_decreases c h e he hs,
+   fun es _ hint hr => internal_run_bounded c h es hint hr,
+   fun h1 es _ hint hr hmax => maximal_run_returns c (fileCfg_recheck hc) (fileCfg_initArms hc) h h1 es hint hr hmax,
+   fun h1 => stop_completes c (fileCfg_recheck hc) (fileCfg_initArms hc) (measure s) h h1 (Nat.le_refl _),
+   recv_loop_done_after_mwg c h, fun hs _ hi => all_returned_after_wait c h hs hi⟩
+
+/-- Eviction and restart, for ALL runs of the model.  For every reachable state and every session `i`:
+(1) when the timer has fired on the blocked downlink (deadline `past`), the read fails and the tear-down begins;
+(2) a tear-down that has begun only moves forward under EVERY event (relay, environment, timer, Stop);
+(3) I_i can always make its next tear-down step, except while it waits for the mutex, and then the holder can make a step;
+    every such step moves I_i strictly forward (at most 6 steps);
+(4) once I_i has returned, U_i can always make a step, each of its steps strictly decreases `q*7+rank`, and no other event
+    increases it (the receive loop cannot reach the entry any more);
+(5) when both have returned, the entry is not reachable through the table and the NAT socket is closed;
+(6) a later datagram of the same client finds no entry, creates a fresh one (open channel holding the datagram, nil state),
+    every initialiser call of it returns, and unless Stop is visiting the entry its swap succeeds: a working session.
+FAIRNESS ASSUMPTION under which (1)-(5) give "the session is evicted": I_i, U_i and the current mutex holder are scheduled
+again and again (weak fairness).  The witness run `eviction_restarts_witness` shows the whole cycle. -/
+theorem eviction_restarts {c : Cfg} (hc : fileCfg c) {s : State} (h : Reachable c s) {i : Nat} (hi : i < s.n) :
+    ((s.ent i).ipc = .dRead → (s.ent i).dl = .past → ∃ s', step c s (.dTimeout i) = some s' ∧ (s'.ent i).ipc = .cLock) ∧
+    ((s.ent i).tearingDown → ∀ e s', step c s e = some s' → (s'.ent i).ipc.rank ≤ (s.ent i).ipc.rank) ∧
+    ((s.ent i).tearingDown → (s.ent i).ipc ≠ .done →
+        (step c s (.cleanup i)).isSome = true ∨
+        ((s.ent i).ipc = .cLock ∧ s.mu ≠ .free ∧ ∃ e, e.internal = true ∧ (step c s e).isSome = true)) ∧
+    (∀ s', step c s (.cleanup i) = some s' → (s'.ent i).ipc.rank < (s.ent i).ipc.rank) ∧
+    ((s.ent i).ipc = .done → (s.ent i).finished = false →
+        (step c s (.uRecv i 1)).isSome = true ∨ (step c s (.uStep i)).isSome = true) ∧
+    ((s.ent i).ipc = .done → ∀ e s', step c s e = some s' → (s'.ent i).uplinkWork ≤ (s.ent i).uplinkWork) ∧
+    (∀ e s', (e = .uStep i ∨ e = .uFail i ∨ ∃ k, e = .uRecv i k) → step c s e = some s' →
+        (s'.ent i).uplinkWork < (s.ent i).uplinkWork) ∧
+    ((s.ent i).finished = true → s.table (s.ent i).key ≠ some i ∧ (s.ent i).sock = false) ∧
+    (∀ k s', s.rpc = .hold k → s.table k = none → step c s (.rProc true) = some s' →
+        s'.table k = some s.n ∧ s'.n = s.n + 1 ∧ s'.ent s.n = Entry.fresh k) ∧
+    (9 ≤ (s.ent i).ipc.rank → ∀ ok, (step c s (.init i ok)).isSome = true) ∧
+    ((s.ent i).ipc = .swap → (s.ent i).visited = false → s.spc ≠ .pend i → ∀ ok s', step c s (.init i ok) = some s' →
+        (s'.ent i).ipc = .spawn ∧ (s'.ent i).clean = true ∧ (s'.ent i).st = .nat) :=
+  ⟨fun hp hd => evict_starts c hi hp hd,
+   fun ht e _ hs => teardown_monotone c e hs hi ht,
+   fun ht hnd => teardown_can_move c h hi ht hnd,
+   fun _ hs => cleanup_strict c hs,
+   fun hp hnf => uplink_can_move c h hi hp hnf,
+   fun hp e _ hs => uplink_work_monotone c h e hs hi hp,
+   fun e _ he hs => uplink_step_strict c e he hs,
+   fun hf => ⟨deleted_not_in_table c h hi (by
+      simp only [Entry.finished, Bool.and_eq_true, beq_iff_eq] at hf; rw [hf.1]; rfl),
+      socket_released c (fileCfg_closes hc).1 (fileCfg_closes hc).2 h hi hf⟩,
+   fun _ _ hr ht hs => missing_key_creates_fresh c hr ht hs,
+   fun hp ok => init_always_returns c hi hp ok,
+   fun hp hv hnp ok _ hs => swap_succeeds_unless_stopping c h hi hp hv hnp ok hs⟩
 
 /-! Why the re-check is needed (finding F9): the same model without it reaches a state in which Stop waits in
 `wg.Wait`, the downlink sleeps on a future deadline, the uplink is blocked on its empty open channel, and no goroutine
@@ -177,7 +243,7 @@ theorem eviction_restarts_fresh_entry {c : Cfg} (_ : fileCfg c) {s s' : State} {
     s'.table k = some s.n ∧ s'.n = s.n + 1 ∧ s'.ent s.n = Entry.fresh k :=
   missing_key_creates_fresh c hr ht hs
 
-theorem eviction_restarts :
+theorem eviction_restarts_witness :
     -- after the timer fired on the idle session: entry 0 is gone from the table, all its goroutines returned, socket closed
     ((run cfgNatGeneric State.init evictTrace).map fun s =>
       ((s.table 0).isNone, (s.ent 0).finished, (s.ent 0).sock, s.mu == .free, s.panic)) = some (true, true, false, true, false) ∧
@@ -195,6 +261,15 @@ example : ∃ s, Reachable cfgNatGeneric s ∧ s.spc.afterIter = true ∧ 0 < s.
       decide (s.spc.afterIter = true ∧ 0 < s.n ∧ (s.ent 0).ipc = .dRead ∧ (s.ent 0).dl = .future)) = some true := by decide
   rw [hs] at this
   exact ⟨s, reachable_run f9Trace Reachable.init hs, by simpa using this⟩
+-- a session whose tear-down has begun is reachable (hypothesis of `eviction_restarts` (2),(3)), with the mutex free
+example : ∃ s, Reachable cfgNatGeneric s ∧ 0 < s.n ∧ (s.ent 0).tearingDown ∧ (s.ent 0).ipc ≠ .done := by
+  have hrun : (run cfgNatGeneric State.init (establish 0 ++ [.timer 0, .dTimeout 0])).isSome = true := by decide
+  obtain ⟨s, hs⟩ := Option.isSome_iff_exists.mp hrun
+  have : ((run cfgNatGeneric State.init (establish 0 ++ [.timer 0, .dTimeout 0])).map fun s =>
+      decide (0 < s.n ∧ (s.ent 0).ipc = .cLock)) = some true := by decide
+  rw [hs] at this
+  simp only [Option.map_some, Option.some.injEq, decide_eq_true_eq] at this
+  exact ⟨s, reachable_run _ Reachable.init hs, this.1, by simp [Entry.tearingDown, this.2, IPc.rank], by simp [this.2]⟩
 example : fileCfg cfgNatGeneric := ⟨cfgNatGeneric.cap, Or.inl rfl⟩
 example : ∃ s, Reachable cfgNatGeneric s ∧ (∃ k, s.rpc = .hold k) := by
   have hrun : (run cfgNatGeneric State.init [.arrive 0, .rLock]).isSome = true := by decide
@@ -218,8 +293,9 @@ end SSV.C12
 #print axioms SSV.C12.downlink_always_has_deadline
 #print axioms SSV.C12.never_evicted_without_init_deadline
 #print axioms SSV.C12.eviction_of_unpackable_session
-#print axioms SSV.C12.all_threads_exit_partial
+#print axioms SSV.C12.all_threads_exit
 #print axioms SSV.C12.stop_timer_witness_without_recheck
 #print axioms SSV.C12.f9_schedule_with_recheck
 #print axioms SSV.C12.eviction_restarts_fresh_entry
 #print axioms SSV.C12.eviction_restarts
+#print axioms SSV.C12.eviction_restarts_witness
